@@ -39,7 +39,9 @@ SEARCH_RULE = ('DKW band eps_n = sqrt(ln(2/delta)/(2n)), delta = 1e-9.  Required
                'Statistical part only in the thorough tier / when an obligation is broken; the quick tier runs the '
                'deterministic oracles (exact estimators, param maps, KDE density = kernel estimate - also after the caller '
                'overwrites the training array in place -, supports, 4 moderately U-shaped Beta samples (n = 5000, every dataset '
-               'within 2 eps\'_n), TruncatedGaussian on large-scale (1e3) asymmetrically truncated data (n = 5000, every dataset within '
+               'within 2 eps\'_n), object states (fresh / re-fitted / from_dict / clone give bit-identical parameters), configured candidate instances '
+               'reached through Univariate / GaussianMultivariate keep their options, numeric forms of user bounds, '
+               'TruncatedGaussian on large-scale (1e3) asymmetrically truncated data (n = 5000, every dataset within '
                '2 eps\'_n / 3 eps\'_n), TruncatedGaussian with '
                'user bounds equal to 0, fitted Beta support not wider than 3x the data range for data inside (0,1))')
 PARTIAL = ['Props/C04b settles truncated_generating_law_feasible_partial: exact feasibility iff (a <= 0 <= b and 1 <= sigma (b-a)^2), sharpness of the partial hypothesis, and a counterexample showing the unrestricted clause is false for every support',
@@ -932,6 +934,211 @@ def beta_unit_width_oracle(ctx, seed, deep):
     return checked
 
 
+BOUND_FORMS = {
+    'int': lambda v: int(v), 'float': lambda v: float(v), 'np.float64': lambda v: np.float64(v),
+    'np.float32': lambda v: np.float32(v), 'np.int64': lambda v: np.int64(v), 'np.int32': lambda v: np.int32(v),
+    '0-d array': lambda v: np.array(float(v)), '0-d int array': lambda v: np.array(int(v)),
+}
+
+
+def trunc_bound_forms_oracle(ctx, seed, deep):
+    """numeric FORMS of user-supplied bounds (Python int/float, numpy scalars, 0-d arrays; keyword and positional), data
+    strictly inside the bounds: the implied support loc + a*scale / loc + b*scale (also read back through to_dict) equals the
+    supplied bounds, self.min/max keep the value, cdf(minimum) = 0, cdf(maximum) = 1."""
+    import copulas.univariate.truncated_gaussian as tg
+    r = random.Random('C04-design/trunc-forms')
+    checked = 0
+    forms = sorted(BOUND_FORMS)
+    for j, form in enumerate(forms):
+        lo, hi = float(r.randrange(-6, 2)), float(r.randrange(4, 12))      # integral: exact in every form
+        rs = vc.np_rng(seed, 'C04', 'trunc-forms', j)
+        X = rs.uniform(lo + 0.4, hi - 0.4, size=120) if j % 2 else \
+            np.clip(rs.normal((lo + hi) / 2, (hi - lo) / 8, size=120), lo + 0.3, hi - 0.3)
+        other = forms[(j + 3) % len(forms)]
+        vlo, vhi = BOUND_FORMS[form](lo), BOUND_FORMS[other](hi)
+        positional = j % 2 == 1
+        m = tg.TruncatedGaussian(vlo, vhi) if positional else tg.TruncatedGaussian(minimum=vlo, maximum=vhi)
+        checked += 1
+        ctx.count(f'support.truncated.bound-form.{form}')
+        inp = {'minimum': [form, lo], 'maximum': [other, hi], 'positional': positional, 'X': X.tolist()}
+        try:
+            m.fit(X)
+            bad = support_check('truncated', None, m, {'minimum': lo, 'maximum': hi}, X)
+            if not bad:
+                d = m.to_dict()
+                a_, b_, loc_, sc_ = (float(np.asarray(d[k])) for k in ('a', 'b', 'loc', 'scale'))
+                if not (abs(loc_ + a_ * sc_ - lo) <= 1e-9 * (hi - lo) and abs(loc_ + b_ * sc_ - hi) <= 1e-9 * (hi - lo)):
+                    bad = ('to_dict-support-not-bounds', {'to_dict': vc.jsonable(d), 'bounds': [lo, hi]})
+        except Exception as e:  # noqa
+            bad = ('raises', f'{type(e).__name__}: {e}'[:200])
+        if bad:
+            numpy_form = form not in ('int', 'float') or other not in ('int', 'float')
+            ctx.fail_input('TruncatedGaussian.fit', inp, bad[1],
+                           'user-supplied bounds are honoured whatever their numeric type: support = [minimum, maximum], '
+                           'cdf(minimum) = 0, cdf(maximum) = 1, to_dict truncation points reproduce the bounds',
+                           f'TruncatedGaussian.fit:{bad[0]}' + (':numpy-scalar' if numpy_form else ''))
+    return checked
+
+
+def _kde_matches(model_pdf, ds, bw, w, tag):
+    """density of a fitted model vs the independent kernel estimate with the CONFIGURED rule -> None or observed"""
+    factor, h, _ = np_kernel_estimate(ds, bw, w, [0.0])
+    r = random.Random(len(ds))
+    pts = [float(ds[r.randrange(len(ds))]) + r.uniform(-3, 3) * h for _ in range(5)]
+    _, _, want = np_kernel_estimate(ds, bw, w, pts)
+    got = np.asarray(model_pdf(np.array(pts)), dtype=float)
+    if all(close(a, b, 1e-9, 1e-290) for a, b in zip(got, want)):
+        return None
+    return {'route': tag, 'x': pts, 'density': got.tolist(), 'kernel_estimate_with_configured_options': want.tolist(),
+            'configured_factor': factor}
+
+
+def wrapper_route_oracle(ctx, seed, deep):
+    """the estimator reached through the selection wrapper: a CONFIGURED candidate instance must keep its constructor
+    options (KDE: bandwidth rule / weights; TruncatedGaussian: bounds) on every route."""
+    import pandas as pd
+    from copulas.multivariate import GaussianMultivariate
+    from copulas.univariate import GaussianKDE, TruncatedGaussian, Univariate
+    r = vc.rng_for(seed, 'C04', 'routes')
+    rs = vc.np_rng(seed, 'C04', 'routes')
+    checked = 0
+    n = 80
+    X = rs.normal(r.uniform(-5, 5), lognu(r, 0.2, 5), size=n)
+    Z = rs.normal(size=n)
+    w = rs.uniform(0.1, 1.0, size=n)
+    configs = [{'bw_method': 'silverman'}, {'bw_method': round(r.uniform(0.15, 0.6), 3)}, {'bw_method': 'silverman', 'weights': w}]
+    for cfg in (configs if deep else configs[:3]):
+        bw, ww = cfg.get('bw_method'), cfg.get('weights')
+        routes = {}
+        try:
+            m = GaussianKDE(**cfg)
+            m.fit(X)
+            routes['direct'] = m.probability_density
+            u = Univariate(candidates=[GaussianKDE(**cfg)])
+            u.fit(X)
+            routes['Univariate(candidates=[instance])'] = u.probability_density
+            routes['Univariate(candidates=[instance])._instance'] = u._instance.probability_density
+            gm = GaussianMultivariate(distribution=Univariate(candidates=[GaussianKDE(**cfg)]))
+            gm.fit(pd.DataFrame({'x': X, 'z': Z}))
+            routes['GaussianMultivariate(distribution=Univariate(candidates=[instance])).univariates[0]'] = \
+                gm.univariates[0].probability_density
+            gm2 = GaussianMultivariate(distribution=GaussianKDE(**cfg))
+            gm2.fit(pd.DataFrame({'x': X, 'z': Z}))
+            routes['GaussianMultivariate(distribution=instance).univariates[0]'] = gm2.univariates[0].probability_density
+        except Exception as e:  # noqa
+            ctx.fail_input('Univariate.fit', {'X': X.tolist(), 'kde_options': vc.jsonable(cfg)}, f'{type(e).__name__}: {e}'[:200],
+                           'fit through the wrapper succeeds', 'Univariate.fit:candidate-instance-raises')
+            continue
+        for tag, pdf in routes.items():
+            checked += 1
+            ctx.count('route.kde')
+            obs = _kde_matches(pdf, X, bw, ww, tag)
+            if obs:
+                ctx.fail_input('Univariate.fit' if tag != 'direct' else 'GaussianKDE.fit',
+                               {'X': X.tolist(), 'kde_options': vc.jsonable(cfg), 'route': tag}, obs,
+                               'density = (weighted) Gaussian kernel estimate of the training data with the CONFIGURED bandwidth '
+                               'rule / weights, on every route to the estimator',
+                               'Univariate.fit:candidate-instance-options-lost' if tag != 'direct'
+                               else 'GaussianKDE.fit:density-not-kernel-estimate')
+    # TruncatedGaussian bounds through the wrapper
+    lo, hi = -3.0, 9.0
+    Y = rs.uniform(lo + 1.5, hi - 2.0, size=n)
+    try:
+        u = Univariate(candidates=[TruncatedGaussian(minimum=lo, maximum=hi)])
+        u.fit(Y)
+        gm = GaussianMultivariate(distribution=Univariate(candidates=[TruncatedGaussian(lo, hi)]))
+        gm.fit(pd.DataFrame({'y': Y, 'z': Z}))
+        insts = {'Univariate(candidates=[instance])._instance': u._instance,
+                 'GaussianMultivariate(distribution=Univariate(candidates=[instance])).univariates[0]._instance':
+                     gm.univariates[0]._instance}
+        for tag, inst in insts.items():
+            checked += 1
+            ctx.count('route.truncated')
+            bad = support_check('truncated', None, inst, {'minimum': lo, 'maximum': hi}, Y) \
+                if type(inst).__name__ == 'TruncatedGaussian' else ('wrong-class', type(inst).__name__)
+            if bad:
+                ctx.fail_input('Univariate.fit', {'Y': Y.tolist(), 'bounds': [lo, hi], 'route': tag}, bad[1],
+                               'the configured candidate keeps its bounds: support = [minimum, maximum]',
+                               'Univariate.fit:candidate-instance-options-lost')
+    except Exception as e:  # noqa
+        ctx.fail_input('Univariate.fit', {'Y': Y.tolist(), 'bounds': [lo, hi]}, f'{type(e).__name__}: {e}'[:200],
+                       'fit through the wrapper succeeds', 'Univariate.fit:candidate-instance-raises')
+    return checked
+
+
+STATE_FAMILIES = ['GaussianUnivariate', 'UniformUnivariate', 'BetaUnivariate', 'GammaUnivariate', 'StudentTUnivariate', 'LogLaplace',
+                  'TruncatedGaussian', 'GaussianKDE']
+
+
+def _fit_params(m, X):
+    try:
+        m.fit(X)
+        return ('ok', {k: np.asarray(v, dtype=float).ravel().tolist() for k, v in m._params.items()})
+    except Exception as e:  # noqa
+        return ('err', type(e).__name__)
+
+
+def state_oracle(ctx, seed, deep):
+    """object STATES: the estimate after the last fit must not depend on what the instance held before - fresh instance,
+    re-fitted (A, then B with another support / location / scale), re-fitted after a constant fit, restored with from_dict then
+    fitted, get_instance clone then fitted: parameters bit-identical to a fresh instance's fit on the same data (all
+    estimators are deterministic given the data).  Not exercised here (recorded under C19): TruncatedGaussian WITHOUT user
+    bounds and GaussianKDE re-fitted / fitted after from_dict (bounds / sample size remembered across fits)."""
+    from copulas.utils import get_instance
+    r = vc.rng_for(seed, 'C04', 'states')
+    rs = vc.np_rng(seed, 'C04', 'states')
+    checked = 0
+    n = 150
+    for clsname in STATE_FAMILIES:
+        cls = _cls(clsname)
+        if clsname == 'BetaUnivariate':
+            A = stats.beta.rvs(2.0, 3.0, loc=0.0, scale=1.0, size=n, random_state=rs)
+            B = stats.beta.rvs(r.uniform(1.5, 4), r.uniform(1.5, 4), loc=r.uniform(20, 60), scale=r.uniform(5, 15), size=n, random_state=rs)
+        elif clsname in ('GammaUnivariate', 'LogLaplace'):
+            A = stats.gamma.rvs(3.0, loc=0.0, scale=1.0, size=n, random_state=rs)
+            B = stats.gamma.rvs(r.uniform(2, 5), loc=r.uniform(3, 8), scale=r.uniform(3, 9), size=n, random_state=rs)
+        elif clsname == 'TruncatedGaussian':
+            A = rs.uniform(-1.0, 1.0, size=n)
+            B = rs.uniform(2.0, 6.5, size=n)
+        else:
+            A = rs.normal(0.0, 1.0, size=n)
+            B = rs.normal(r.uniform(20, 60), r.uniform(5, 15), size=n)
+        A, B = np.asarray(A, dtype=float), np.asarray(B, dtype=float)
+        kw = {'minimum': -2.0, 'maximum': 8.0} if clsname == 'TruncatedGaussian' else {}
+        fresh = _fit_params(cls(**kw), B)
+        states = {}
+        m = cls(**kw)
+        m.fit(A)
+        if clsname != 'GaussianKDE':
+            states['re-fitted (A then B)'] = m
+            m2 = cls(**kw)
+            m2.fit(A)
+            try:
+                restored = cls.from_dict(m2.to_dict())
+                if clsname == 'TruncatedGaussian':      # bounds are constructor options, not part of to_dict
+                    restored.min, restored.max = kw['minimum'], kw['maximum']
+                states['restored with from_dict, then fitted'] = restored
+            except Exception:  # noqa
+                pass
+        mc = cls(**kw)
+        mc.fit(np.full(12, float(A[0])))
+        states['re-fitted after a constant fit'] = mc
+        m3 = cls(**kw)
+        m3.fit(A)
+        states['get_instance clone of a fitted instance, then fitted'] = get_instance(m3)
+        for tag, inst in states.items():
+            got = _fit_params(inst, B)
+            checked += 1
+            ctx.count(f'state.{clsname}')
+            if got != fresh:
+                d_true = None
+                ctx.fail_input(f'{clsname}.fit', {'class': clsname, 'ctor': kw, 'state': tag, 'A': A.tolist(), 'B': B.tolist()},
+                               {'params_after_last_fit': got, 'fresh_instance_params': fresh},
+                               'the estimate after the last fit equals a fresh instance\'s estimate on the same data (bit-identical '
+                               'parameters)', f'{clsname}.fit:estimate-depends-on-previous-fit')
+    return checked
+
+
 TRUNC_ASYM = [(0.0, 3.0), (-3.0, 0.0), (-0.5, 2.5), (-2.0, 0.3), (-0.3, 3.0)]
 
 
@@ -1096,6 +1303,9 @@ def search(ctx, deep, seed=None):
     checked += kde_alias_oracle(ctx, seed, deep)
     c_, large_stats = trunc_large_scale_oracle(ctx, seed, deep)
     checked += c_
+    checked += trunc_bound_forms_oracle(ctx, seed, deep)
+    checked += wrapper_route_oracle(ctx, seed, deep)
+    checked += state_oracle(ctx, seed, deep)
     # --- bounded scipy-MLE family: support of the fitted Beta (deterministic)
     if not deep:
         for idx, p in enumerate(fixed_design('beta', 4)):
